@@ -260,9 +260,4 @@ Proof. split; reflexivity. Qed.
 (* ---------------------------------------------------------------------------------------------- *)
 (* NIfTI                                                                                           *)
 (* ---------------------------------------------------------------------------------------------- *)
-(* the writer of the tree as it is produces no file, whatever the image *)
-Lemma nifti_write_fails (D : nat) (x : image) : D = 2%nat \/ D = 3%nat -> write_nifti D x = None.
-Proof.
-  intros [-> | ->]; unfold write_nifti, nifti_w_status, cclass; destruct (Nat.eqb (i_chan x) 1); vm_compute; reflexivity.
-Qed.
 End Proofs.
